@@ -126,6 +126,20 @@ func TestVerifC19(t *testing.T) {
 			}
 		}
 	}
+	// "after ANY number of rejected candidates": longer runs of rejected candidates (a bound on the redraws that gives up
+	// quietly sits at a small round number), the source ending or failing at a few offsets of the next draw
+	for _, nrej := range []int{4, 7, 8, 9, 15, 16, 17, 31, 32, 33, 64, 100, 255, 256, 300} {
+		var stream []byte
+		for j := 0; j < nrej; j++ {
+			stream = append(stream, over[(j+nrej)%3]...)
+		}
+		stream = append(stream, rng.Bytes(32)...)
+		for _, entry := range []string{"GenerateKey", "SignHashed"} {
+			for _, off := range []int{0, 1, 17, 31} {
+				cases = append(cases, fcase{entry: entry, stream: stream, failAt: nrej*32 + off, ek: (nrej + off) % 3, withData: off%2 == 1, chunk: chunks[(nrej+off)%len(chunks)], nrej: nrej})
+			}
+		}
+	}
 	r.Sample(hk.D{"entry": cases[100].entry, "stream": hk.Hex(cases[100].stream), "fail_at": cases[100].failAt, "err": errNames[cases[100].ek], "chunk": cases[100].chunk})
 
 	hk.Parallel(len(cases), func(i int) {
